@@ -206,7 +206,7 @@ fn run_case(case: &Case, ctx: &mut Ctx) {
     let mut oh = Fnv::new();
     oh.bytes(&obs.shp[36..100.min(obs.shp.len())]);
     ctx.case_done(case.hash(), case.ndev >= 1 || case.shapes.len() >= 2, oh.finish());
-    if case.ndev == 2 {
+    if case.ndev == 2 && case.shapes.len() <= 3 {
         ctx.sample(|| case.to_json());
     }
     for (sig, d) in judge(case, &obs) {
@@ -274,7 +274,36 @@ fn enumerate(u: &Unit, ctx: &mut Ctx, tick: &dyn Fn()) {
             }
         }
     }
+    if u.dmax >= 1 {
+        // the box degenerates to a point: every vertex identical
+        for v in [1.0f64, -2.5, 0.0, f64::MAX] {
+            let mut sh = u.base.clone();
+            for s in &sl {
+                apply(&mut sh, *s, v);
+            }
+            go(sh, 1, ctx);
+        }
+    }
     if u.dmax >= 2 {
+        // extremes that differ by one unit in the last place (strictness of the comparisons)
+        for a in &sl {
+            for b in &sl {
+                if a == b || a.dim != b.dim {
+                    continue;
+                }
+                for v in [1.0f64, -2.5, 1e300, -1e-300, 123456.78901234567] {
+                    for w in [next_up(v), next_down(v)] {
+                        // everything else of that dimension sits strictly between
+                        let mut sh = u.base.clone();
+                        for s in sl.iter().filter(|s| s.dim == a.dim) {
+                            apply(&mut sh, *s, v);
+                        }
+                        apply(&mut sh, *b, w);
+                        go(sh, 2, ctx);
+                    }
+                }
+            }
+        }
         for a in &sl {
             for b in &sl {
                 if a == b || a.dim != b.dim {
@@ -358,8 +387,34 @@ pub fn check(tier: Tier) -> i32 {
             }
         }
     }
-    let (agg, capped) = par_blocks(units.len(), Some(started + std::time::Duration::from_secs(tier.pick(50, 1500))), |b, ctx, tick| {
-        enumerate(&units[b], ctx, tick)
+    // every record count up to the bound, the extreme value in the last record (header clause)
+    let count_types = [Ty::Point, Ty::PointZ, Ty::PolylineM];
+    let maxn = tier.pick(1100usize, 3100);
+    let count_units: Vec<(Ty, usize)> = count_types.iter().flat_map(|t| (4..=maxn).map(move |n| (*t, n))).collect();
+    let n_struct = units.len();
+    let total_units = n_struct + (count_units.len() + 15) / 16;
+    let run_count_case = |ty: Ty, n: usize, ctx: &mut Ctx| {
+        let red = reduced_set(ty);
+        let mut shapes: Vec<MShape> = (0..n).map(|i| red[(i * 3 + i / 5) % red.len()].clone()).collect();
+        // the last record holds the maximum of every dimension, the one before the minimum
+        for d in 0..4 {
+            if ty.dims()[d] {
+                let last = shapes.len() - 1;
+                shapes[last].parts[0].pts[0][d] = 7.0e6 + d as f64;
+                shapes[last - 1].parts[0].pts[0][d] = -7.0e6 - d as f64;
+            }
+        }
+        run_case(&Case { ty, shapes, ndev: 2 }, ctx);
+    };
+    let (agg, capped) = par_blocks(total_units, Some(started + std::time::Duration::from_secs(tier.pick(50, 1500))), |b, ctx, tick| {
+        if b < n_struct {
+            enumerate(&units[b], ctx, tick)
+        } else {
+            for (ty, n) in count_units.iter().skip(b - n_struct).step_by(total_units - n_struct) {
+                run_count_case(*ty, *n, ctx);
+                tick();
+            }
+        }
     });
     let st = selftest();
     finish(
@@ -368,7 +423,7 @@ pub fn check(tier: Tier) -> i32 {
             tier,
             level: "model_checking",
             engine: "E2 structure x extreme-value placement enumerator; oracle = independent numeric min/max fold + RefCodec for stored boxes and header bytes",
-            rule: "13 types x structures (1-3 parts, 1-5 vertices) and sequences of 2-3 shapes x {no deviation; one slot x every value of F_xy; a whole dimension set to one value of F_xy; every ordered pair of distinct slots of one dimension x low x high values}; non-trivial = >=1 deviation or >=2 shapes",
+            rule: "13 types x structures (1-3 parts, 1-5 vertices) and sequences of 2-3 shapes x {no deviation; one slot x every value of F_xy; a whole dimension set to one value of F_xy; every ordered pair of distinct slots of one dimension x low x high values; every pair with values one ulp apart; all vertices identical}; plus files of EVERY record count 4..=bound with the minimum in the last-but-one and the maximum in the last record; non-trivial = >=1 deviation or >=2 shapes",
             bounds: json!({"units": units.len(), "f_xy": f_xy().len(), "lows": lows().len(), "highs": highs().len(), "pair_scope_max_points": tier.pick(6, 9)}),
             exhaustive: true,
             assumptions: vec![
